@@ -56,7 +56,7 @@ def gen(tier, seed):
             ("SimMixed3.cfg", 250 if tier == "quick" else 6000, (3 if tier == "quick" else 40, 9)),
             ("SimCont3.cfg", 150 if tier == "quick" else 3000, (3 if tier == "quick" else 30, 9))]
     if tier == "thorough":
-        plan = [(c, n * 12 if s is None else n, s) for c, n, s in plan]
+        plan = [(c, n * 40 if s is None else n, s) for c, n, s in plan]
     for cfg, n, sim in plan:
         cs, m = lpcases.family(cfg, "quick", seed, n, sim)
         meta[cfg[:-4]] = m
